@@ -234,7 +234,14 @@ def imports(ctx, case):
             ctx.mon("inotify CREATE events", c)
             ctx.mon("inotify DELETE events", dl)
             if c != dl:
-                ctx.violation(case, {"why": "inotify saw %d creations but %d deletions in the shared temp directory" % (c, dl)})
+                # the directory was found empty above, so an unbalanced count can only be events that inotifywait had
+                # not printed yet when it was stopped: recorded, not judged (wall-clock effects are never verdicts)
+                ctx.mon("inotify logs cut short (unbalanced counts with an empty directory; not judged)")
+            names_created = set(f for e, f in events if "CREATE" in e)
+            unknown = sorted(n for n in names_created if n not in touched)
+            if unknown:
+                ctx.violation(case, {"why": "inotify saw files created in the shared temp directory that no importer's audit log accounts for",
+                                     "names": unknown[:5]})
                 return
         # ---- what the barrier observed -----------------------------------------------------
         overlap = 0
